@@ -42,7 +42,8 @@ static void c05_in_sampling_par(vbi_sampling_par *sp)
 V_HARNESS(h_decode_out)
 {
   vbi_sliced out0[MAXOUT + 1];
-  unsigned max_lines, n, k, i;
+  int8_t pat0[LINES * _VBI3_RAW_DECODER_MAX_WAYS];
+  unsigned max_lines, n, k, i, w, x;
   vbi_sampling_par *sp = &RD.sampling;
   V_INIT();
   c05_in_sampling_par(sp);
@@ -53,6 +54,7 @@ V_HARNESS(h_decode_out)
   RD.services = in_u32(); RD.n_jobs = in_u8(); RD.readjust = in_u8() & 15; st_fill = in_u8();
   max_lines = in_u8();
   memcpy(out0, OUT, sizeof OUT);
+  memcpy(pat0, PAT, sizeof PAT);
 #ifdef ILACE            /* grid: field storage and split of the lines between the fields made concrete (the row */
   sp->interlaced = ILACE;  /* addresses handed to the slicer are then constants; everything else stays symbolic) */
 #endif
@@ -94,6 +96,13 @@ V_HARNESS(h_decode_out)
       if (k > 0 && !sp->interlaced) V_ASSERT(st_hit_row[k] > st_hit_row[k - 1], "one_record_per_row_ascending");
     }
   V_ASSERT(pat_inv(PAT, RD.n_jobs), "pattern_invariant_preserved");
+  /* a row's jobs are only reordered: no job appears in a row that did not have it (jobs never migrate between lines) */
+  for (i = 0; i < LINES; i++)
+    for (w = 0; w < _VBI3_RAW_DECODER_MAX_WAYS; w++) {
+      int v = PAT[i * _VBI3_RAW_DECODER_MAX_WAYS + w]; unsigned found = 0;
+      for (x = 0; x < _VBI3_RAW_DECODER_MAX_WAYS; x++) found |= pat0[i * _VBI3_RAW_DECODER_MAX_WAYS + x] == v;
+      if (v > 0) V_ASSERT(found, "no_job_migrates_between_rows");
+    }
   V_ASSERT(RD.pattern == PAT && RD.n_jobs <= 8, "decoder_shape_unchanged");
   if ((n == max_lines && max_lines < LINES && max_lines > 0) || LINES < 2) V_REACH("output_full");
   if (n >= 2 || LINES < 2) V_REACH("two_records");
